@@ -38,6 +38,8 @@ def population(hv, tier, sd, pops, per_pop):
             got = movers(random.Random(sd * 31 + 5), n)
         elif pop == "P":
             got = long_runs(random.Random(sd * 37 + 3), n)
+        elif pop == "Q":
+            got = edge_moves(random.Random(sd * 41 + 9), n)
         else:
             got = bf.gen_cases(hv, pop, sd, n)
         cases += got
@@ -53,6 +55,45 @@ def population(hv, tier, sd, pops, per_pop):
                 c["w"] = rng.choice([8, 8, 16, 32, 64])
         c["id"] = "%s%d" % (c["pop"], i)
         out.append(c)
+    return out
+
+
+def edge_moves(rng, n):
+    """Population Q: after a scan (so that the optimiser no longer knows where the pointer is) values
+    are moved around between a few cells near the pointer - cycles included, which the optimiser turns
+    into one parallel assignment - while some of those cells lie outside the part of the tape that has
+    been allocated so far and some of the values are zero; then every cell is printed."""
+    from .heavy import B
+    out = []
+    for _ in range(n):
+        b = B()
+        inputs = [rng.randint(1, 255)]
+        k0 = rng.randint(0, 3)
+        b.raw(">" * k0 if rng.random() < 0.5 else "")
+        b.raw(",")
+        scan = rng.choice(["[<]", "[>]", "[<<]", "[>>]"])
+        b.raw(scan)
+        b.pos = 0                                     # positions are relative to where the scan stopped
+        offs = rng.sample(range(-8, 9), rng.randint(3, 5))
+        if rng.random() < 0.6:
+            offs[0] = 1 if "<" in scan else -1        # the input byte sits next to the stopping cell
+        moves = []
+        if rng.random() < 0.6:                        # a rotation through all of them
+            cyc = offs + [offs[0]]
+            tmp = 12 if rng.random() < 0.5 else -12
+            moves.append((cyc[-2], tmp))
+            for i in range(len(offs) - 2, -1, -1):
+                moves.append((cyc[i], cyc[i + 1]))
+            moves.append((tmp, cyc[0]))
+        else:
+            for _ in range(rng.randint(3, 6)):
+                a, c = rng.sample(offs, 2)
+                moves.append((a, c))
+        for a, c in moves:
+            b.mulmove(a, [(c, 1)])
+        for o in offs:
+            b.out(o)
+        out.append({"pop": "Q", "prog": b.text(), "input": inputs})
     return out
 
 
@@ -74,8 +115,13 @@ def long_runs(rng, n):
             prog = "-" * k + "+" * (k - rng.choice([1, 2, 256])) + "+" * rng.choice([0, 1, 2]) + ".[[-]>+.<]>."
         elif form == 3:
             prog = ">" * k + "+." + "<" * k + ",." + ">" * k + "."
-        else:
+        elif form == 4:
             prog = "," + "+" * k + "." + test
+        if rng.random() < 0.35:
+            if rng.random() < 0.5:       # a countdown through a multiple of 256, one byte per iteration
+                prog = "+" * rng.randint(257, 290) + "[.-]" + "+."
+            else:                        # a wide cell cleared from a multiple of 256, then tested
+                prog = "+" * (256 * rng.randint(1, 4)) + "[-]" + ">+<[>-<[-]]>."
         out.append({"pop": "P", "prog": prog, "input": [rng.choice([0, 1, 200, 255])]})
     return out
 
@@ -700,11 +746,11 @@ def c04(tier):
 def c01(tier):
     levels = [0, 1, 2, 3, 4, 7]
     per = {"E": 6000, "rnd": 3000, "S": 6000, "R": 300, "M": 2000, "N": 500, "L": 1500, "G": 1500, "I": 400,
-           "W": 600, "P": 40} if tier == "quick" else \
+           "W": 600, "P": 40, "Q": 300} if tier == "quick" else \
         {"E": 60000, "rnd": 60000, "S": 150000, "R": 400, "M": 40000, "N": 10000, "L": 40000, "G": 30000, "I": 8000,
-         "W": 12000, "P": 800}
+         "W": 12000, "P": 800, "Q": 6000}
     return run_equivalence("C01", tier, lambda c: [{"backend": "irint", "level": l} for l in levels],
-                           ["E", "rnd", "S", "R", "M", "N", "L", "G", "I", "W", "P"], per,
+                           ["E", "rnd", "S", "R", "M", "N", "L", "G", "I", "W", "P", "Q"], per,
                            adjudicate_max=2500 if tier == "quick" else 80000, comment_share=0.02,
                            heavy=150 if tier == "quick" else 3000)
 
@@ -1028,10 +1074,10 @@ PRE_PROGRAMS = ["+-", ">+-<", "<+-> ", ">>>+-<<<", "<<+->>+-", "+->+-<"]
 
 def c06_runs(tier, rep, bins):
     hv = bins["release"]
-    per = {"T": 900, "S": 300, "N": 100, "rnd": 300, "M": 200, "W": 600, "K": 200} if tier == "quick" else \
-          {"T": 20000, "S": 8000, "N": 3000, "rnd": 6000, "E": 60000, "M": 4000, "W": 12000, "K": 4000}
+    per = {"T": 900, "S": 300, "N": 100, "rnd": 300, "M": 200, "W": 600, "K": 200, "Q": 300} if tier == "quick" else \
+          {"T": 20000, "S": 8000, "N": 3000, "rnd": 6000, "E": 60000, "M": 4000, "W": 12000, "K": 4000, "Q": 6000}
     sd = seed()
-    pops, per = dev_pops(["T", "S", "N", "rnd", "E", "M", "W", "K"], per)
+    pops, per = dev_pops(["T", "S", "N", "rnd", "E", "M", "W", "K", "Q"], per)
     cases = override_cases() or population(hv, tier, sd, pops, per)
 
     def runs_release(c):
@@ -1091,6 +1137,9 @@ def c17_runs(tier, rep, bins):
                 runs.append({"backend": b, "level": l, "alloc": "failtape", "failK": k, "failMin": 0, "stream": 1})
             for k in ks[:3]:   # the k-th allocation of any kind during execution is refused
                 runs.append({"backend": b, "level": l, "alloc": "fail", "failK": k, "failMin": 0, "stream": 1})
+            for k in ks[:2]:   # ... and through the budgeted entry point (a refusal is not "out of budget")
+                runs.append({"backend": b, "level": l, "alloc": "fail", "failK": k, "failMin": 0, "stream": 1,
+                             "mode": "limited", "budget": bf.UNLIMITED})
         # the operating system refuses the JIT's executable mapping (not a tape request, same contract)
         runs.append({"backend": "jit", "level": 2, "alloc": "failmmap", "failK": 0, "failMin": 0, "stream": 1})
         runs.append({"backend": "jit", "level": 0, "alloc": "failmmap", "failK": 0, "failMin": 0, "stream": 1,
